@@ -101,11 +101,13 @@ theorem ignored_direct_vs_wire (P : ProtoCfg)
   have hg : P.Good := by rcases hP with h | h | h <;> subst h <;> decide
   exact Null.ignored_direct_vs_wire facts18 (by decide) P hg τ s impl keys hk pos kw hlen x himpl
 
-/-- a raised `Fault` reaches both callers with its fault code, any other exception reaches both
-    as a `Server` fault (for every protocol configuration, no side condition) -/
+/-- a raised `Fault` reaches both callers as the same fault — code, string, actor and detail
+    (`c : Flt`) —, any other exception reaches both as a `Server` fault (for every protocol
+    configuration, no side condition; that the members of the fault survive a given protocol
+    configuration is watched by T3 on every configuration, cf. C09) -/
 theorem fault_direct_and_wire (P : ProtoCfg) (τ : Val → Val) (s : Sig) (impl : List Val → Result)
     (keys : List String) (hk : s.inKeys = some keys) (pos : List Val) (kw : List (String × Val))
-    (hlen : pos.length ≤ keys.length) (c : String)
+    (hlen : pos.length ≤ keys.length) (c : Flt)
     (himpl : ∀ recv, impl recv = .fault c ∨ (impl recv = .error ∧ c = "Server")) :
     nullCall facts18 s impl pos kw = .fault c ∧ wireCall facts18 P τ s impl pos kw = .fault c :=
   fault_both facts18 P τ s impl keys hk pos kw hlen c himpl
@@ -462,6 +464,12 @@ example : validateBodyStyle (some "wrapped") (some "rpc") = some .bare ∧
     validateBodyStyle (some "out_bare") (some "document") = some .wrapped ∧
     validateBodyStyle none (some "rpc") = some .wrapped ∧
     validateBodyStyle (some "Bare") none = none ∧ validateBodyStyle (some "bare") (some "x") = none := by decide
+
+/-- a fault with a detail and no actor: the same record on both paths -/
+example : let f : Flt := { code := "Client.OutOfStock", str := some "not enough items",
+                           detail := .obj "dict" [("item", .str "nail")] }
+    nullCall facts18 sW (fun _ => .fault f) [] [] = .fault f ∧
+    wireCall facts18 facts18.json id sW (fun _ => .fault f) [] [] = .fault f := ⟨rfl, rfl⟩
 
 /-- Ignored with two declared return values -/
 example : nullCall facts18 sW (fun _ => .value (.ignored (.int 7))) [] [] = .ok (.ignored (.int 7)) ∧
